@@ -175,6 +175,11 @@ class Interp:
         explicitly allowed."""
         c = self.registry.get(target)
         mi, ci, fn, kind = self.index.function(target)
+        decs = [ast.unparse(d) for d in fn.decorator_list]
+        if "staticmethod" in decs:
+            self_obj = None
+        elif "classmethod" in decs:
+            self_obj = SClass(ci.name) if ci is not None else self_obj
         if c is not None and not c.inline and target != self.verifying + "!":
             return self.call_by_contract(c, fn, pos, kw, self_obj)
         if c is None and target not in self.cx.ghost.get("inline_ok", ()) and not fn.name == "__init__":
@@ -542,10 +547,14 @@ class Interp:
                 v = fr.locals.get(m)
                 if isinstance(v, (SList, SDict, SSet, SObj)):
                     heap_allowed.append((v, None))
+        before = {m: fr.locals.get(m) for m in declared}
         if spec.havoc is not None:
             spec.havoc(cx, env, i)
         for name in assigned - declared:
             fr.locals[name] = Poison(name)
+        for name in declared & assigned:
+            if name in fr.locals and fr.locals[name] is before.get(name) and not isinstance(before.get(name), (SList, SDict, SSet, SObj)):
+                fr.locals[name] = Poison(name)  # declared as modified but not described by the havoc
         # objects the havoc installed are part of the frame too
         for m in declared:
             v = fr.locals.get(m)
@@ -758,6 +767,8 @@ class Interp:
         raise Unsupported("set display")
 
     def ev_Dict(self, e, fr):
+        if not e.keys:
+            return self.b.f_dict([], {}, fr)
         d = {}
         for k, v in zip(e.keys, e.values):
             if k is None:
@@ -925,6 +936,8 @@ class Interp:
             return obj.value
         if isinstance(obj, SExc):
             return SOpaque("excattr")
+        if isinstance(obj, SFunc) and obj.kind == "builtin" and obj.self_obj is None:
+            return SFunc("builtin", f"{obj.name}.{attr}")
         if isinstance(obj, SFunc) and obj.kind == "super":
             res = None
             mro = self.index.mro(obj.self_obj.cls)
